@@ -118,8 +118,8 @@ CHECK_DEADLOCK FALSE
         # the run that contains the first unmatched record
         recs = [json.loads(l) for l in open(trace_path)]
         i = min(matched, len(recs) - 1)
-        j = max([k for k in range(i + 1) if recs[k].get("t") == "Reset"] or [0])
-        e = next((k for k in range(i + 1, len(recs)) if recs[k].get("t") == "Reset"), len(recs))
+        j = max([k for k in range(i + 1) if str(recs[k].get("t", "")).endswith("Reset")] or [0])
+        e = next((k for k in range(i + 1, len(recs)) if str(recs[k].get("t", "")).endswith("Reset")), len(recs))
         os.makedirs(REPLAY_DIR, exist_ok=True)
         path = os.path.join(REPLAY_DIR, f"{acc.pid}-trace-{len(acc.violations)}.json")
         json.dump({"property": acc.pid, "kind": "rejected-trace", "module": module, "first_unmatched_record": i - j,
@@ -522,6 +522,33 @@ def c19(acc):
     return acc.finish()
 
 
+def c17(acc):
+    """Declared or detected encodings decode to the same content as UTF-8."""
+    q = acc.tier == QUICK
+    acc.rule = ("(A) Encoding.tla: constructor x first bytes (no signature, UTF-8 BOM, UTF-16 BOMs, UTF-16 signatures, '<?xm', incomplete signatures) x up to 3 declarations "
+                "with labels from a pool: Explicit never overridden, first labelled declaration wins over the sniff, later ones ignored. (C) with the encoding feature: "
+                "(i) the same decision space enumerated on the real reader (7 prefixes x 57 declaration sequences x slice/str/buffered with first piece 4/9/whole); "
+                "(ii) documents over a character pool transcoded with encoding_rs into every ASCII-compatible encoding, with/without UTF-8 BOM and declaration, "
+                "slice/buffered, compared event by event with the UTF-8 original (kinds, decoded payloads, encoding in force, no BOM in events); (iii) 0xFF injected into "
+                "text/attribute values of multi-byte encodings: a decoding error, never replacement characters. non-trivial = runs with a declaration or a non-UTF-8 encoding")
+    acc.trusted = ["TLC", "harness/src/enc.rs", "encoding_rs tables and Encoding::for_label (uninterpreted; axiom Dec(enc, Enc(enc, s)) = s instantiated by the harness)"]
+    cfg = "SPECIFICATION Spec\nINVARIANTS Inv_Explicit Inv_Precedence Inv_Bom\nCHECK_DEADLOCK FALSE\n"
+    r = tlc("MC_Encoding", cfg, name="MC_Encoding", workers=4, timeout=600)
+    acc.add_tlc(r, "A:MC_Encoding (exhaustive)")
+    wd = work_dir("trace-C17")
+    tp = os.path.join(wd, "trace.ndjson")
+    args = ["enc-record", "--out", tp, "--n", 6 if q else 60, "--seed", SEED]
+    summ, viol, _ = harness(args, enc=True)
+    ok = validate_trace(acc, "TraceEncoding", tp, "C:traces decision space on the real reader + transcoded documents in every ASCII-compatible encoding + malformed bytes", "",
+                        rerun_args=[str(a) for a in args])
+    if summ:
+        acc.traces += summ["traces"] if ok else 0
+        acc.evaluations += summ["events"]
+        acc.nontrivial += summ["nontrivial"]
+        acc.samples += summ["samples"][:3]
+    return acc.finish()
+
+
 def run_check(pid, tier):
     fn = REGISTRY.get(pid)
     if fn is None:
@@ -562,4 +589,4 @@ def replay(pid, path):
     return 1
 
 
-REGISTRY = {"C01": c01, "C02": c02, "C03": c03, "C04": c04, "C05": c05, "C08": c08, "C09": c09, "C10": c10, "C11": c11, "C12": c12, "C16": c16, "C18": c18, "C19": c19}
+REGISTRY = {"C01": c01, "C02": c02, "C03": c03, "C04": c04, "C05": c05, "C08": c08, "C09": c09, "C10": c10, "C11": c11, "C12": c12, "C16": c16, "C17": c17, "C18": c18, "C19": c19}
